@@ -6,7 +6,7 @@ import swbase
 from swbase import AFTER_PREFIXES, model_line_after, agree_after
 
 ID = "C01"
-PROPS = ["C01", "C01Compose"]
+PROPS = ["C01", "C01Compose", "C01Lockstep"]
 EXEC = ("pl", "sws")
 RULE = ("n in 2..6 pipelined requests on one connection, each answered by its own thread; the threads are released in a random "
         "permutation (quick) / every permutation for n <= 4 (thorough) with grace periods of 0.3 / 3 / 20 ms; finishers: respond "
